@@ -429,6 +429,9 @@ class Shell:
           printed.
         """
         if not args:
+            if self.debugger.finished():
+                print("Program has finished executing.")
+                return
             args = [self.debugger.op().name]
 
         for arg in args:
@@ -786,6 +789,10 @@ class Shell:
         """
         if len(args) > 0:
             print("step takes no arguments.")
+            return
+
+        if self.debugger.finished():
+            print("Program has finished executing.")
             return
 
         if self.debugger.op().name != "CALL":
